@@ -11,12 +11,23 @@ Fixpoint op_ok (k : nat) (o : op) : bool :=
   match o with
   | ODep sl => Nat.ltb sl k
   | OCache _ body => (fix go (l : list op) : bool := match l with [] => true | x :: t => op_ok k x && go t end) body
+  | OPar bs =>
+      (fix gob (ll : list (list op)) : bool :=
+         match ll with
+         | [] => true
+         | b :: t => (fix go (l : list op) : bool := match l with [] => true | x :: u => op_ok k x && go u end) b && gob t
+         end) bs
   | _ => true
   end.
 Definition prog_ok (k : nat) (p : list op) : bool := forallb (op_ok k) p.
 
 Lemma op_ok_cache : forall k key body, op_ok k (OCache key body) = prog_ok k body.
 Proof. intros k key body. simpl. induction body as [|x t IH]; simpl; [reflexivity | rewrite IH; reflexivity]. Qed.
+
+Lemma op_ok_par : forall k bs, op_ok k (OPar bs) = forallb (prog_ok k) bs.
+Proof.
+  intros k bs. simpl. induction bs as [|b t IH]; simpl; [reflexivity|]. rewrite IH. reflexivity.
+Qed.
 
 Lemma prog_ok_cons : forall k o p, prog_ok k (o :: p) = true -> op_ok k o = true /\ prog_ok k p = true.
 Proof. intros k o p H. simpl in H. apply andb_true_iff in H. exact H. Qed.
@@ -37,6 +48,7 @@ Definition frame_ok (g : graph) (k : nat) (f : frame) : Prop :=
   | FChildBegin _ _ body parent => parent < N /\ comp_kind g parent /\ prog_ok k body = true
   | FCacheSet _ _ child parent => child < N /\ parent < N /\ child <> parent
   | FCacheLink child parent => child < N /\ parent < N /\ child <> parent
+  | FCacheGet _ _ body c => c < N /\ comp_kind g c /\ prog_ok k body = true
   | FRunEnd _ c => c < N /\ n_hinv (getn g c) = None
   | FArm _ c => c < N /\ n_hinv (getn g c) = None
   | _ => True
@@ -125,6 +137,7 @@ Proof.
   - destruct H as [H1 [[H2 H3] H4]]. destruct (S parent H1) as [S1 [_ S3]]. rewrite S1. repeat split; auto; try lia; try (apply S3; exact H3).
   - destruct H as [H1 [H2 H3]]. repeat split; auto; lia.
   - destruct H as [H1 [H2 H3]]. repeat split; auto; lia.
+  - destruct H as [H1 [[H2 H3] H4]]. destruct (S c H1) as [S1 [_ S3]]. rewrite S1. repeat split; auto; try lia; try (apply S3; exact H3).
   - destruct H as [H1 H2]. destruct (S c H1) as [_ [S2 _]]. rewrite S2. split; [lia | exact H2].
   - destruct H as [H1 H2]. destruct (S c H1) as [_ [S2 _]]. rewrite S2. split; [lia | exact H2].
 Qed.
@@ -254,31 +267,22 @@ Proof.
       try (intros x [<-|[]]); assumption.
 Qed.
 
-Lemma unwind_closed : forall g k r stk cs below,
-  unwind r stk = Some (cs, below) -> (forall f, In f stk -> frame_ok g k f) ->
+Lemma unwind_closed : forall g k r stk cs ks below term,
+  unwind r stk = Some (cs, ks, below, term) -> (forall f, In f stk -> frame_ok g k f) ->
   (forall c, In c cs -> c < length g) /\ (forall f, In f below -> In f stk) /\
   (forall p, count p below <= count p stk) /\
-  (forall p, (forall a b c, p (FScript a b c) = false) -> (forall a b c d, p (FCacheSet a b c d) = false) ->
-             (forall a b, p (FRunEnd a b) = false) -> count p stk = count p below).
+  (forall p, (forall f, unw_kind f = true -> p f = false) -> (forall a b, p (FRunEnd a b) = false) -> (forall a, p (FBranchEnd a) = false) ->
+             count p stk = count p below).
 Proof.
-  intros g k r. induction stk as [|h t IH]; simpl; intros cs below H Ok; [discriminate|].
-  destruct h; try discriminate.
-  - destruct (Nat.eqb r r0); [|discriminate]. destruct (IH _ _ H (fun f Hf => Ok f (or_intror Hf))) as [I1 [I2 [I3 I4]]].
-    split; [exact I1|]. split; [intros f Hf; right; apply I2; exact Hf|]. split.
-    + intros q. specialize (I3 q). lia.
-    + intros q P1 P2 P3. rewrite P1. simpl. apply I4; assumption.
-  - destruct (Nat.eqb r r0); [|discriminate]. destruct (unwind r t) as [[cs' b']|] eqn:U; [|discriminate]. inversion H; subst.
-    destruct (IH _ _ eq_refl (fun f Hf => Ok f (or_intror Hf))) as [I1 [I2 [I3 I4]]].
-    split; [|split; [|split]].
-    + intros c [<-|Hc]; [destruct (Ok _ (or_introl eq_refl)) as [Q _]; exact Q | apply I1; exact Hc].
-    + intros f Hf. right. apply I2. exact Hf.
-    + intros q. specialize (I3 q). lia.
-    + intros q P1 P2 P3. rewrite P2. simpl. apply I4; assumption.
-  - destruct (Nat.eqb r r0) eqn:E; [|discriminate]. inversion H; subst. split; [|split; [|split]].
-    + intros c' [<-|[]]. destruct (Ok _ (or_introl eq_refl)) as [Q _]. exact Q.
-    + intros f Hf. right. exact Hf.
-    + intros q. lia.
-    + intros q P1 P2 P3. rewrite P3. reflexivity.
+  intros g k r stk cs ks below term H Ok.
+  destruct (unwind_split _ _ _ _ _ _ H) as [d [l [E [Fd [L C]]]]]. subst stk. split; [|split; [|split]].
+  - intros c Hc. destruct (C c Hc) as [[a [k' [q Q]]]|Q].
+    + assert (K := Ok (FCacheSet a k' c q)). simpl in K. apply K. apply in_app_iff. left. exact Q.
+    + assert (K := Ok l). rewrite Q in K. simpl in K. apply K. apply in_app_iff. right. left. reflexivity.
+  - intros f Hf. apply in_app_iff. right. right. exact Hf.
+  - intros p. rewrite count_app. simpl. lia.
+  - intros p P1 P2 P3. rewrite count_app. simpl. rewrite (count_zero_forall p unw_kind d P1 Fd).
+    destruct term; simpl in L; [subst l; rewrite P3 | destruct L as [c ->]; rewrite P2]; reflexivity.
 Qed.
 
 Ltac ccnt := simpl; rewrite ?count_app; simpl; rewrite ?Nat.eqb_refl; try lia.
@@ -333,6 +337,59 @@ Lemma cache_get_In : forall c k v, cache_get c k = Some v -> In (k, v) c.
 Proof.
   induction c as [|[k' v'] t IH]; simpl; intros k v H; [discriminate|].
   destruct (Nat.eqb k k') eqn:E; [apply Nat.eqb_eq in E; inversion H; subst; left; reflexivity | right; apply IH; exact H].
+Qed.
+
+Lemma do_fail_closed : forall s r stk retry s1 st sp others F0,
+  do_fail s r stk retry = Some (s1, st, sp) ->
+  (forall f, In f stk -> frame_ok (s_nodes s) (length (s_slots s)) f) ->
+  (forall f, In f (stk ++ others) -> In f F0 \/ frame_ok (s_nodes s) (length (s_slots s)) f) ->
+  (forall n, count (is_treg n) (stk ++ others) <= count (is_treg n) F0) ->
+  (forall c, count (is_end c) (stk ++ others) <= count (is_end c) F0) ->
+  (forall r', count (is_clean r') (stk ++ others) = count (is_clean r') F0) ->
+  closed_on (s_nodes s) (s_slots s) (s_rrs s) F0 ->
+  closed_on (s_nodes s1) (s_slots s1) (s_rrs s1) (st ++ others ++ concat sp).
+Proof.
+  intros s r stk retry s1 st sp others F0 H Ok Hf Ht He Hc Inv.
+  destruct (do_fail_spec _ _ _ _ _ _ _ H) as [cs [ks [below [term [y [U [N [Sl [R [Y1 [Y2 [Y3 [Y4 [Y5 [Y6 [Y7 [Y8 T]]]]]]]]]]]]]]]]].
+  destruct (unwind_closed _ _ _ _ _ _ _ _ U Ok) as [Uc [Ub [Ule Ueq]]].
+  assert (RI : forall f cs0, (forall c0, In c0 cs0 -> c0 < length (s_nodes s)) -> In f (concat (map (fun c0 => [FRelEnter c0]) cs0)) -> frame_ok (s_nodes s) (length (s_slots s)) f).
+  { intros f cs0 Hcs. induction cs0 as [|h t IH]; simpl; [intros []|]. intros [<-|Hf']; [simpl; apply Hcs; left; reflexivity | apply IH; [intros c0 H0; apply Hcs; right; exact H0 | exact Hf']]. }
+  assert (RC : forall p cs0, (forall m, p (FRelEnter m) = false) -> count p (concat (map (fun c0 => [FRelEnter c0]) cs0)) = 0).
+  { intros p cs0 Hp. induction cs0 as [|h t IH]; simpl; [reflexivity|]. rewrite Hp, IH. reflexivity. }
+  assert (Shape : exists top extra, st = top :: below /\ sp = map (fun c => [FRelEnter c]) cs ++ extra /\
+                  (top = FUnlock r \/ exists jid, top = FBranchEnd jid) /\ (extra = [] \/ extra = [[FRunWait r]]) /\
+                  (r_cache y = r_cache (getr s r) \/ r_cache y = [])).
+  { destruct term as [jid|].
+    - destruct T as [-> [-> [Q _]]]. exists (FBranchEnd jid), []. rewrite app_nil_r. repeat split; auto. right. eexists; reflexivity.
+    - destruct T as [-> [_ [[_ [-> [Q _]]]|[_ [-> [Q _]]]]]].
+      + exists (FUnlock r), [[FRunWait r]]. repeat split; auto.
+      + exists (FUnlock r), []. rewrite app_nil_r. repeat split; auto. }
+  destruct Shape as [top [extra [-> [-> [Ht' [Hx Hcache]]]]]].
+  assert (Ptop : forall p, (forall a, p (FUnlock a) = false) -> (forall a, p (FBranchEnd a) = false) -> p top = false).
+  { intros p P1 P2. destruct Ht' as [->|[jid ->]]; auto. }
+  assert (Pext : forall p, (forall a, p (FRunWait a) = false) -> count p (concat extra) = 0).
+  { intros p P1. destruct Hx as [->| ->]; simpl; rewrite ?P1; reflexivity. }
+  rewrite N, Sl, R.
+  eapply closed_transfer; [apply same_cl_refl | intros n' x' Hx'; left; exact Hx' | reflexivity | intros sl' _; left; reflexivity
+    | apply length_setl | | | | | exact Inv].
+  - assert (Ceq : forall r', count (is_clean r') ((top :: below) ++ others ++ concat (map (fun c => [FRelEnter c]) cs ++ extra)) = count (is_clean r') F0).
+    { intros r'. rewrite <- Hc. simpl. rewrite (Ptop (is_clean r')) by reflexivity. rewrite ?count_app, ?concat_app, ?count_app, RC, Pext by reflexivity.
+      rewrite (Ueq (is_clean r')); [lia | intros f Hk; destruct f; simpl in *; try discriminate; reflexivity | reflexivity | reflexivity]. }
+    apply rr_premise_setl; [intros r' _; apply Ceq|].
+    intros Hr. destruct Inv as [_ [_ [_ [_ [_ F]]]]]. destruct (F r Hr) as [F1 [F2 [F3 F4]]]. unfold getr in *.
+    unfold rr_ok. rewrite Y2, Y5, Y6, Ceq. repeat split; auto.
+    intros key child Hin. destruct Hcache as [Q|Q]; rewrite Q in Hin; [eapply F2; eauto | contradiction].
+  - intros f Hin. simpl in Hin. rewrite ?in_app_iff, ?concat_app, ?in_app_iff in Hin.
+    destruct Hin as [<-|[Hin|[Hin|[Hin|Hin]]]].
+    + right. destruct Ht' as [->|[jid ->]]; exact I.
+    + apply Hf. apply in_app_iff. left. apply Ub. exact Hin.
+    + apply Hf. apply in_app_iff. right. exact Hin.
+    + right. eapply RI; [exact Uc | exact Hin].
+    + right. destruct Hx as [->| ->]; simpl in Hin; [contradiction | destruct Hin as [<-|[]]; exact I].
+  - intros n'. left. specialize (Ht n'). specialize (Ule (is_treg n')). simpl. rewrite (Ptop (is_treg n')) by reflexivity.
+    rewrite ?count_app, ?concat_app, ?count_app, RC, Pext in * by reflexivity. lia.
+  - intros c'. left. specialize (He c'). specialize (Ule (is_end c')). simpl. rewrite (Ptop (is_end c')) by reflexivity.
+    rewrite ?count_app, ?concat_app, ?count_app, RC, Pext in * by reflexivity. lia.
 Qed.
 
 Definition out_closed (g : graph) : Prop := forall m x, In x (n_out (getn g m)) -> x < length g.
@@ -486,60 +543,12 @@ Proof.
     assert (Fq : frame_ok (s_nodes s) (length (s_slots s)) (FScript r c q)) by (simpl; auto).
     assert (Fail : forall retry, do_fail s r (FScript r c q :: rest) retry = Some (s1, st, sp) ->
                    closed_on (s_nodes s1) (s_slots s1) (s_rrs s1) (st ++ others ++ concat sp)).
-    { intros retry HF. unfold do_fail in HF.
-      destruct (unwind r (FScript r c q :: rest)) as [[cs below]|] eqn:U; [|discriminate].
-      assert (Ok : forall f, In f (FScript r c q :: rest) -> frame_ok (s_nodes s) (length (s_slots s)) f).
-      { intros f [<-|Hf]; [exact Fq | apply Fr; right; apply in_app_iff; left; exact Hf]. }
-      destruct (unwind_closed _ _ _ _ _ _ U Ok) as [Uc [Ub [Ule Ueq]]].
-      assert (RI : forall f cs0, (forall c0, In c0 cs0 -> c0 < length (s_nodes s)) -> In f (concat (map (fun c0 => [FRelEnter c0]) cs0)) -> frame_ok (s_nodes s) (length (s_slots s)) f).
-      { intros f cs0 Hc. induction cs0 as [|h t IH]; simpl; [intros []|]. intros [<-|Hf]; [simpl; apply Hc; left; reflexivity | apply IH; [intros c0 H0; apply Hc; right; exact H0 | exact Hf]]. }
-      assert (RC : forall p cs0, (forall m, p (FRelEnter m) = false) -> count p (concat (map (fun c0 => [FRelEnter c0]) cs0)) = 0).
-      { intros p cs0 Hp. induction cs0 as [|h t IH]; simpl; [reflexivity|]. rewrite Hp, IH. reflexivity. }
-      assert (Cle : forall p, (forall m, p (FRelEnter m) = false) -> p (FUnlock r) = false -> p (FRunWait r) = false ->
-                    (forall a b d, p (FScript a b d) = false) ->
-                    forall extra, (extra = [] \/ extra = [[FRunWait r]]) ->
-                    count p ((FUnlock r :: below) ++ others ++ concat (map (fun c0 => [FRelEnter c0]) cs ++ extra)) <= count p (FScript r c (o :: q) :: rest ++ others)).
-      { intros p P1 P2 P3 P4 extra He. specialize (Ule p). simpl in Ule. rewrite P4 in Ule. simpl. rewrite P2, P4.
-        rewrite ?count_app, ?concat_app, ?count_app, RC by exact P1.
-        destruct He as [->| ->]; simpl; rewrite ?P3; simpl in *; lia. }
-      assert (Frames : forall f extra, (extra = [] \/ extra = [[FRunWait r]]) ->
-                 In f ((FUnlock r :: below) ++ others ++ concat (map (fun c0 => [FRelEnter c0]) cs ++ extra)) ->
-                 In f (FScript r c (o :: q) :: rest ++ others) \/ frame_ok (s_nodes s) (length (s_slots s)) f).
-      { intros f extra He Hf. simpl in Hf. rewrite ?in_app_iff, ?concat_app, ?in_app_iff in Hf.
-        destruct Hf as [<-|[Hf|[Hf|[Hf|Hf]]]].
-        - right. exact I.
-        - apply Ub in Hf. destruct Hf as [<-|Hf]; [right; exact Fq | left; right; apply in_app_iff; left; exact Hf].
-        - left. right. apply in_app_iff. right. exact Hf.
-        - right. eapply RI; [exact Uc | exact Hf].
-        - destruct He as [->| ->]; simpl in Hf; [contradiction | destruct Hf as [<-|[]]; right; exact I]. }
-      assert (Rr : forall y, r_comp y = r_comp (getr s r) -> (r_cache y = r_cache (getr s r) \/ r_cache y = []) -> r_prog y = r_prog (getr s r) ->
-                   r_clock y = r_clock (getr s r) -> forall extra, (extra = [] \/ extra = [[FRunWait r]]) ->
-                   forall r', r' < length (s_rrs s) ->
-                     (same_rc (nth r' (s_rrs s) drr) (nth r' (setl (s_rrs s) r y) drr) /\
-                      count (is_clean r') ((FUnlock r :: below) ++ others ++ concat (map (fun c0 => [FRelEnter c0]) cs ++ extra)) = count (is_clean r') (FScript r c (o :: q) :: rest ++ others)) \/
-                     rr_ok (s_nodes s) (length (s_slots s)) ((FUnlock r :: below) ++ others ++ concat (map (fun c0 => [FRelEnter c0]) cs ++ extra)) r' (nth r' (setl (s_rrs s) r y) drr)).
-      { intros y Y1 Y2 Y3 Y4 extra He.
-        assert (Ceq : forall r', count (is_clean r') ((FUnlock r :: below) ++ others ++ concat (map (fun c0 => [FRelEnter c0]) cs ++ extra)) = count (is_clean r') (FScript r c (o :: q) :: rest ++ others)).
-        { intros r'. simpl. rewrite ?count_app, ?concat_app, ?count_app, RC by reflexivity.
-          pose proof (Ueq (is_clean r') (fun _ _ _ => eq_refl) (fun _ _ _ _ => eq_refl) (fun _ _ => eq_refl)) as Q. simpl in Q.
-          destruct He as [->| ->]; simpl; lia. }
-        apply rr_premise_setl; [intros r' _; apply Ceq|].
-        intros Hr. destruct Inv as [_ [_ [_ [_ [_ F]]]]]. destruct (F r Hr) as [F1 [F2 [F3 F4]]]. unfold getr in *.
-        unfold rr_ok. rewrite Y1, Y3, Y4, Ceq. repeat split; auto.
-        intros key child Hin. destruct Y2 as [Y2|Y2]; rewrite Y2 in Hin; [eapply F2; eauto | contradiction]. }
-      destruct retry; injection HF as E1 E2 E3; subst s1 st sp; simpl s_nodes; simpl s_slots; simpl s_rrs.
-      - eapply closed_transfer; [apply same_cl_refl | intros n' x' Hx'; left; exact Hx' | reflexivity | intros sl' _; left; reflexivity
-          | apply length_setl | apply (Rr (set_cache (getr s r) []) eq_refl (or_intror eq_refl) eq_refl eq_refl [[FRunWait r]]); right; reflexivity
-          | intros f Hf; apply (Frames f [[FRunWait r]]); [right; reflexivity | exact Hf] | | | exact Inv].
-        + intros n'. left. pose proof (Cle (is_treg n') (fun _ => eq_refl) eq_refl eq_refl (fun _ _ _ => eq_refl) [[FRunWait r]] (or_intror eq_refl)) as Q. exact Q.
-        + intros c'. left. pose proof (Cle (is_end c') (fun _ => eq_refl) eq_refl eq_refl (fun _ _ _ => eq_refl) [[FRunWait r]] (or_intror eq_refl)) as Q. exact Q.
-      - eapply closed_transfer; [apply same_cl_refl | intros n' x' Hx'; left; exact Hx' | reflexivity | intros sl' _; left; reflexivity
-          | apply length_setl | | | | | exact Inv].
-        + pose proof (Rr (set_failed (getr s r)) eq_refl (or_introl eq_refl) eq_refl eq_refl [] (or_introl eq_refl)) as Q.
-          rewrite app_nil_r in Q. exact Q.
-        + intros f Hf. apply (Frames f []); [left; reflexivity | rewrite app_nil_r; exact Hf].
-        + intros n'. left. pose proof (Cle (is_treg n') (fun _ => eq_refl) eq_refl eq_refl (fun _ _ _ => eq_refl) [] (or_introl eq_refl)) as Q. rewrite app_nil_r in Q. exact Q.
-        + intros c'. left. pose proof (Cle (is_end c') (fun _ => eq_refl) eq_refl eq_refl (fun _ _ _ => eq_refl) [] (or_introl eq_refl)) as Q. rewrite app_nil_r in Q. exact Q. }
+    { intros retry HF. eapply do_fail_closed; [exact HF | | | | | | exact Inv].
+      - intros f [<-|Hf]; [exact Fq | apply Fr; right; apply in_app_iff; left; exact Hf].
+      - intros f Hf. simpl in Hf. destruct Hf as [<-|Hf]; [right; exact Fq | left; right; exact Hf].
+      - intros n'. simpl. lia.
+      - intros c'. simpl. lia.
+      - intros r'. simpl. reflexivity. }
     assert (Leaf : forall fs, (forall f, In f fs -> frame_ok (s_nodes s) (length (s_slots s)) f) ->
                    (forall n', count (is_treg n') fs = 0) -> (forall c', count (is_end c') fs = 0) -> (forall r', count (is_clean r') fs = 0) ->
                    closed_on (s_nodes s) (s_slots s) (s_rrs s) ((fs ++ FScript r c q :: rest) ++ others ++ [])).
@@ -576,21 +585,29 @@ Proof.
               destruct (Nat.eqb n' (length (s_nodes s))); simpl; lia.
     + (* OCache *)
       destruct (Nat.eqb arg 0).
-      * destruct (cache_get (r_cache (getr s r)) key) as [child|] eqn:Cg.
-        -- destruct (Nat.eqb child c) eqn:Ec; [discriminate|]. apply Nat.eqb_neq in Ec.
-           injection H as E1 E2 E3. subst s1 st sp.
-           apply (Leaf [FCacheLink child c]); try (intros; reflexivity).
-           intros f [<-|[]]. simpl. split; [|split; [exact Cl | exact Ec]].
-           destruct (Nat.lt_ge_cases r (length (s_rrs s))) as [L|L].
-           ++ destruct Inv as [_ [_ [_ [_ [_ F]]]]]. destruct (F r L) as [_ [F2 _]]. eapply F2. apply cache_get_In. exact Cg.
-           ++ unfold getr in Cg. rewrite nth_overflow in Cg by exact L. discriminate.
-        -- injection H as E1 E2 E3. subst s1 st sp.
-           apply (Leaf [FChildBegin r key p c]); try (intros; reflexivity).
-           intros f [<-|[]]. simpl. rewrite op_ok_cache in Po. auto.
+      * (* the per-key lock is taken *)
+        destruct (memb key (r_keys (getr s r))); [discriminate|]. injection H as E1 E2 E3. subst s1 st sp. simpl.
+        eapply closed_transfer; [ | | | | | | | | | exact Inv];
+          [ apply same_cl_refl | intros n' x' Hx'; left; exact Hx' | reflexivity | intros sl' _; left; reflexivity
+          | apply length_setl | rrs_same | frames_keep | intros n'; left; ccnt | intros c'; left; ccnt ].
+        -- subst f. right. simpl. rewrite op_ok_cache in Po. auto.
+        -- subst f. right. exact Fq.
       * destruct (Nat.eqb arg 2); [injection H as E1 E2 E3; subst s1 st sp; apply (Leaf []); try (intros; reflexivity); intros f []|].
         destruct (r_cancel (getr s r)); [|discriminate]. eapply Fail; eauto.
     + destruct (Nat.eqb arg 0); [injection H as E1 E2 E3; subst s1 st sp; apply (Leaf []); try (intros; reflexivity); intros f [] | eapply Fail; eauto].
     + destruct (Nat.eqb arg 0); [injection H as E1 E2 E3; subst s1 st sp; apply (Leaf []); try (intros; reflexivity); intros f [] | eapply Fail; eauto].
+    + (* OPar *)
+      injection H as E1 E2 E3. subst s1 st sp. simpl. rewrite op_ok_par in Po.
+      eapply closed_transfer; [apply same_cl_refl | intros n' x' Hx'; left; exact Hx' | reflexivity | intros sl' _; left; reflexivity
+        | reflexivity | | | | | exact Inv].
+      * intros r' _. left. split; [repeat split|]. simpl. rewrite ?count_app, branch_tasks_count by reflexivity. simpl. lia.
+      * intros f Hf. simpl in Hf. rewrite ?in_app_iff in Hf. destruct Hf as [<-|[<-|[Hf|[Hf|Hf]]]];
+          [right; exact I | right; exact Fq | left; right; apply in_app_iff; tauto | left; right; apply in_app_iff; tauto |].
+        right. apply in_concat in Hf. destruct Hf as [t [Ht Hf]]. destruct (branch_tasks_in _ _ _ _ _ _ Ht) as [idx [b [Hb ->]]].
+        simpl in Hf. destruct Hf as [<-|[<-|[<-|[]]]]; simpl; auto.
+        split; [exact Cl|]. split; [exact Ck|]. rewrite forallb_forall in Po. apply Po. exact Hb.
+      * intros n'. left. simpl. rewrite ?count_app, branch_tasks_count by reflexivity. simpl. lia.
+      * intros c'. left. simpl. rewrite ?count_app, branch_tasks_count by reflexivity. simpl. lia.
   - (* FDepAdd *)
     destruct (do_add_out s res c) as [[s2 sp2]|] eqn:A; [|discriminate]. injection H as E1 E2 E3. subst s1 st sp.
     destruct (do_add_out_closed _ _ _ _ _ A) as [S [Si [Sl [R [Sp Cz]]]]]. rewrite Sl, R.
@@ -623,6 +640,7 @@ Proof.
         repeat split; auto. destruct (Nat.eq_dec res0 res) as [->|Nq]; [exact Sf1 | rewrite Oth by exact Nq; exact H5].
       - simpl in Nt. assert (res0 <> res) by (intros Q; subst; rewrite Nat.eqb_refl in Nt; discriminate). rewrite Oth by assumption. exact Hf.
       - destruct Hf as [H1 [[H2 H3] H4]]. assert (parent <> res) by (intros Q; subst; unfold getN in *; congruence). rewrite Oth by assumption. auto.
+      - destruct Hf as [H1 [[H2 H3] H4]]. assert (c0 <> res) by (intros Q; subst; unfold getN in *; congruence). rewrite Oth by assumption. auto.
       - destruct Hf as [H1 H2]. split; [exact H1|]. destruct (Nat.eq_dec c0 res) as [->|Nq]; [rewrite Sf2; exact H2 | rewrite Oth by exact Nq; exact H2].
       - destruct Hf as [H1 H2]. split; [exact H1|]. destruct (Nat.eq_dec c0 res) as [->|Nq]; [rewrite Sf2; exact H2 | rewrite Oth by exact Nq; exact H2]. }
     unfold closed_on. fold g'. rewrite Lg. split; [|split; [|split; [|split; [|split]]]].
@@ -685,6 +703,31 @@ Proof.
       right. eapply frame_ok_same; [exact S' | apply Sp; exact Hf].
     + intros n'. left. simpl. rewrite ?count_app, (Cz (is_treg n')) by reflexivity. lia.
     + intros c'. left. simpl. rewrite ?count_app, (Cz (is_end c')) by reflexivity. lia.
+  - (* FCacheGet *)
+    assert (Fr : forall f, In f (FCacheGet r key p c :: rest ++ others) -> frame_ok (s_nodes s) (length (s_slots s)) f) by (destruct Inv as [_ [_ [C _]]]; exact C).
+    destruct (Fr _ (or_introl eq_refl)) as [Cl [Ck Pp]].
+    destruct (cache_get (r_cache (getr s r)) key) as [child|] eqn:Cg.
+    + destruct (Nat.eqb child c) eqn:Ec; [discriminate|]. apply Nat.eqb_neq in Ec.
+      injection H as E1 E2 E3. subst s1 st sp. closed_leaf Inv.
+      subst f. right. simpl. split; [|split; [exact Cl | exact Ec]].
+      destruct (Nat.lt_ge_cases r (length (s_rrs s))) as [L|L].
+      * destruct Inv as [_ [_ [_ [_ [_ F]]]]]. destruct (F r L) as [_ [F2 _]]. eapply F2. apply cache_get_In. exact Cg.
+      * unfold getr in Cg. rewrite nth_overflow in Cg by exact L. discriminate.
+    + injection H as E1 E2 E3. subst s1 st sp. closed_leaf Inv. subst f. right. simpl. auto.
+  - (* FKeyUnlock *) injection H as E1 E2 E3. subst s1 st sp. simpl. closed_leaf Inv.
+  - (* FJoin *)
+    destruct (nth jid (s_joins s) (0, false)) as [nb failed]. destruct (Nat.eqb nb 0); [|discriminate].
+    destruct failed; [|injection H as E1 E2 E3; subst s1 st sp; closed_leaf Inv].
+    assert (Fr : forall f, In f (FJoin r jid :: rest ++ others) -> frame_ok (s_nodes s) (length (s_slots s)) f) by (destruct Inv as [_ [_ [C _]]]; exact C).
+    eapply do_fail_closed; [exact H | | | | | | exact Inv].
+    + intros f Hf. apply Fr. right. apply in_app_iff. left. exact Hf.
+    + intros f Hf. left. right. exact Hf.
+    + intros n'. simpl. lia.
+    + intros c'. simpl. lia.
+    + intros r'. simpl. reflexivity.
+  - (* FBranchBegin *) injection H as E1 E2 E3. subst s1 st sp. closed_leaf Inv.
+  - (* FBranchEnd *)
+    destruct (nth jid (s_joins s) (0, false)) as [nb failed]. injection H as E1 E2 E3. subst s1 st sp. simpl. closed_leaf Inv.
   - (* FRunEnd: publish *)
     injection H as E1 E2 E3. subst s1 st sp. simpl.
     assert (Fr : forall f, In f (FRunEnd r c :: rest ++ others) -> frame_ok (s_nodes s) (length (s_slots s)) f) by (destruct Inv as [_ [_ [C _]]]; exact C).
@@ -729,6 +772,7 @@ Proof.
         - destruct (Hk c0) as [K1 [K2 _]]. destruct (Hk res) as [K3 _]. rewrite K1, K2, K3. exact Hf.
         - destruct (Hk res) as [K1 [K2 _]]. rewrite K1, K2. exact Hf.
         - destruct (Hk parent) as [K1 [K2 _]]. rewrite K1, K2. exact Hf.
+        - destruct (Hk c0) as [K1 [K2 _]]. rewrite K1, K2. exact Hf.
         - simpl in Nt. assert (c0 <> c) by (intros Q; subst; rewrite Nat.eqb_refl in Nt; discriminate). rewrite Oth by assumption. exact Hf.
         - simpl in Nt. assert (c0 <> c) by (intros Q; subst; rewrite Nat.eqb_refl in Nt; discriminate). rewrite Oth by assumption. exact Hf. }
       unfold closed_on. fold g'. rewrite Lg. split; [|split; [|split; [|split; [|split]]]].
@@ -770,7 +814,7 @@ Proof. intros f H. destruct f; simpl in *; try discriminate; repeat split; refle
 Lemma step_closed : forall s l s', edge_inv s -> closed_inv s -> step s l = Some s' -> closed_inv s'.
 Proof.
   intros s l s' Ed Inv H. unfold closed_inv in *. destruct Ed as [Oc _]. destruct l.
-  - destruct (step_task_frames _ _ _ _ H) as [f [rest [s1 [st [sp [others [dropped [P1 [T [D1 [D2 [P2 [N [R Sl]]]]]]]]]]]]]].
+  - destruct (step_task_frames _ _ _ _ H) as [f [rest [s1 [st [sp [others [dropped [P1 [T [D1 [D2 [P2 [N [R [Sl _]]]]]]]]]]]]]]].
     rewrite N, R, Sl. eapply closed_on_perm; [apply Permutation_sym; exact P2|].
     assert (K := step_top_closed _ _ _ _ _ _ _ others T Oc (closed_on_perm _ _ _ _ _ P1 Inv)).
     assert (Cn : forall p, (forall f, exhausted f = true -> p f = false) -> count p st = count p (norm st)).
